@@ -156,14 +156,23 @@ def run_decoder_lockstep(ctx, tie, cases, private=True, prop="C02"):
             continue
         s = c["stream"]
         rep = dict(kind="decoder-history", frame_hex=s["frame"].hex(), ops=c["ops"], flags=c["flags"], desc=s["desc"],
+                   parts=s["parts"], valid=s.get("valid", True), why=s.get("why"),
                    calls=[(x["offered"], x["cap"]) for x in c["irecs"]][:400])
         # direct oracle: the property statement on the observed behaviour of the real decoder
         stable = "so" in c["flags"]
-        viol = st.check_dstream_oracle(c["irecs"], c["iout"], s["content"], st.frame_ends(s["parts"]), len(s["frame"]))
+        if s.get("valid", True):
+            viol = st.check_dstream_oracle(c["irecs"], c["iout"], s["content"], st.frame_ends(s["parts"]), len(s["frame"]))
+        elif s.get("must_reject", True):
+            viol = check_invalid_stream_oracle(c["irecs"], c["iout"], s, len(s["frame"]))
+        else:
+            viol = None          # malformed beyond the damage classes the properties name: lock-step comparison only
+        if viol and c.get("legit_error") and c["legit_error"] in viol[1]:
+            viol = None          # an error the caller asked for (e.g. a stable output buffer smaller than the content)
         key = known_key(c, viol[0]) if viol else None
         if viol:
             nviol += 1
-            ctx.violation(rep, what="streaming decompression of a valid stream (%s, ops %s, flags %s): %s" % (s["desc"], c["ops"][:80], c["flags"], viol[1]), key=key)
+            ctx.violation(rep, what="streaming decompression of a %s stream (%s, ops %s, flags %s): %s"
+                               % ("valid" if s.get("valid", True) else "damaged", s["desc"], c["ops"][:80], c["flags"], viol[1]), key=key)
         m = mout.get(c["id"])
         if m is None or not m.startswith("OK "):
             ctx.violation(dict(rep, model=str(m)[:300]), what="streaming decoder model gave no result for a history (%s)" % (str(m)[:120],), no_input=True)
@@ -196,9 +205,29 @@ def run_decoder_lockstep(ctx, tie, cases, private=True, prop="C02"):
     return hist, nviol
 
 
+def check_invalid_stream_oracle(recs, out, s, total_in):
+    """streams that the specification (R) and the one-shot decoder reject because of a content-size lie, checksum damage or
+    truncation (the damage classes of C09; f70c502 was one): whatever the segmentation, streaming decompression
+    must not report them complete (return 0 with every byte consumed); what it emits before the error must still be a prefix
+    of what the valid part regenerates (s["content"] = bytes regenerated by the frames before the damaged one + the
+    damaged frame's blocks as far as R could decode them, may be None = unknown)"""
+    cin = 0
+    for i, r in enumerate(recs):
+        ret = st.norm_ret(r["ret"])
+        if isinstance(ret, tuple):
+            return None
+        cin += r["consumed"]
+        if ret == 0 and cin == total_in:
+            return (i, "call %d: a stream that one-shot decompression rejects (%s) was accepted by streaming decompression "
+                       "(returned 0 with all %d bytes consumed, %d bytes regenerated)" % (i, s.get("why", "invalid"), total_in, len(out)))
+    return None
+
+
 def known_key(c, i):
     """stable keys of the findings recorded in docs/C02.md / docs/C10.md (i = index of the offending call)"""
     recs = c.get("irecs") or []
+    if c["stream"].get("key"):       # a stream shape with a recorded finding (set by the caller)
+        return c["stream"]["key"]
     # C02-shortcut-after-split-header: the single-pass shortcut probes the caller's buffer although part of the frame
     # header was consumed by an earlier call (previous call stopped inside zdss_loadHeader with lhSize > 0)
     if 1 <= i < len(recs) and recs[i - 1]["streamStage"] == 1 and recs[i - 1]["lhSize"] > 0:
@@ -289,7 +318,10 @@ def compressor_cases(ctx, rng, n, mt=False, big=2):
         ops = gen_chistory(rng)
         if rng.random() < 0.1 and "multiframe" not in ops:
             pledged = size
-        cases.append(dict(id="k%d" % len(cases), x=x, params=p, ops=ops, pledged=pledged, kind=kind, mt=mt))
+        pre = None
+        if rng.random() < 0.08 and size > 0:      # the same context served a single-call compression before (other size)
+            pre = rng.choice([size, max(0, size - 1), size // 2, size + 0])
+        cases.append(dict(id="k%d" % len(cases), x=x, params=p, ops=ops, pledged=pledged, kind=kind, mt=mt, pre=pre))
     return cases
 
 
@@ -323,7 +355,7 @@ def ksignature(recs):
     s = set()
     for r in recs:
         ret = st.norm_ret(r["ret"])
-        s.add((r["dir"], r["streamStage"], "E" if isinstance(ret, tuple) else min(ret, 1), r["frameEnded"], r["consumed"] == 0,
+        s.add((r["dir"], r["streamStage"], "E" if isinstance(ret, tuple) else str(min(ret, 1)), r["frameEnded"], r["consumed"] == 0,
                r["produced"] == 0, r["inBuffPos"] == 0, r["inBuffPos"] == r["inToCompress"], r["outBuffContentSize"] > 0,
                r["notConsumed"] > 0, r["consumed"] < 0))
     return tuple(sorted(s))
@@ -335,6 +367,10 @@ def run_compressor_lockstep(ctx, tie, cd, cases, private=True, flush_oracle=True
         l = "Y %s %s %s %s" % (c["id"], codec.params_str(c["params"]), codec.hx(c["x"]), c["ops"])
         if c["pledged"] is not None:
             l += " %d" % c["pledged"]
+        elif c.get("pre") is not None:
+            l += " -"
+        if c.get("pre") is not None:
+            l += " pre=%d" % c["pre"]
         lines.append(l)
     iout, ierrs = tie.impl(lines)
     if ierrs:
@@ -381,7 +417,7 @@ def run_compressor_lockstep(ctx, tie, cd, cases, private=True, flush_oracle=True
         recs = c["irecs"]
         last = recs[-1] if recs else None
         errored = last is not None and isinstance(st.norm_ret(last["ret"]), tuple)
-        rep = dict(kind="compress-history", params=c["params"], ops=c["ops"], pledged=c["pledged"], input_hex=c["x"].hex()[:200000],
+        rep = dict(kind="compress-history", params=c["params"], ops=c["ops"], pledged=c["pledged"], pre=c.get("pre"), input_hex=c["x"].hex()[:200000],
                    calls=[(x["offered"], x["cap"], x["dir"]) for x in recs][:400])
         c["rep"] = rep
         if errored:
@@ -452,6 +488,14 @@ def run_compressor_lockstep(ctx, tie, cd, cases, private=True, flush_oracle=True
             continue
         t = m.split(" ")
         mrecs = st.parse_mrecords(t[1], st.KFIELDS)
+        if c.get("pre") is not None:
+            # until the first streamed frame is initialised the buffer geometry fields are leftovers of the single-call compression
+            for r, mr in zip(recs, mrecs):
+                if r["streamStage"] != 0 or r["frameEnded"]:
+                    break
+                for f in ("blockSize", "inBuffSize", "outBuffSize", "hint", "inBuffPos", "inToCompress", "inBuffTarget",
+                          "outBuffContentSize", "outBuffFlushedSize"):
+                    r[f] = mr.get(f, r[f])
         d = st.first_diff(recs, mrecs, st.KFIELDS, private=private)
         bad = "bad=1" in m
         if d is None and bad:
